@@ -333,3 +333,13 @@ def _oer_choice_recursive(env, mod, t, v, codec):
             if c.t.tag is None and c.name not in auto and is_recursive_ref(env, r.mod, c.t):
                 return True
     return False
+
+
+
+@carve('oer-list-of-zero-width-elements-huge-quantity', ['C08'])
+def _oer_zero_width_list(env, mod, t, v, codec):
+    """OER list whose element type can be encoded in zero octets."""
+    if codec != 'oer':
+        return False
+    from .checks import c08
+    return c08.has_zero_width_list(env, mod, t, 'oer')
